@@ -467,11 +467,13 @@ var notCovered = map[string][]string{
 		"or-alternatives, type references, nullable, allOf",
 	},
 	"C17": {
-		"language of the enum rule scanner (bracketed comma-separated list of scalars, annotations, exponent numbers refused)",
+		"that the reference transducer of tools/enum_rows.py is the documented enum-rule grammar: by inspection, not machine-checked; composition of rows over a whole text",
+		"the value-ending composite of stateEndValue / state0 / state1 / stateDot0 (its parts are specified: stateAfterArrayItem, stateEndTop, stateFoundArrayEnd); validateValue's duplicate detection; the length-computing mode",
 		"Values() order and the AST of the rule; `enum: @name` vs the inline list through the loader",
 	},
 	"C02": {
-		"schema scanner, enum scanner, loader, compiler, checker, validators and OpenAPI conversion are not under contract: their panics are not excluded",
+		"schema scanner, loader, compiler, checker and OpenAPI conversion are not under contract: their panics are not excluded",
+		"enum rule scanner: run-time panics are excluded in every state method, Next and the queue/stack operations; explicit error-valued panics (empty-stack Pop, json.Guess on an unclassifiable literal inside validateValue) and enum.Enum's own methods (compile, Values, Len) are not",
 		"stack depth and memory exhaustion (the model has unbounded memory and recursion depth)",
 		"known finding: Number scanner exponent magnitude above 2^40 (make with a huge length)",
 	},
